@@ -220,8 +220,79 @@ theorem runQueries_mapLoc (φ : Pos → Pos) (g : Graph) (n : Nat) (qs : List Qu
     | none => simp only [ih m hr]
     | some r => simp only [ih r.1 hr]
 
+/-- what the driver's `queryIso` test says -/
+theorem queryIso_spec {pos1 pos2 : Pos} {l1 l2 : List Pos} (h : queryIso pos1 pos2 l1 l2 = true) :
+    l1.length = l2.length ∧ ∀ (i : Nat) (hi : i < l1.length) (hi' : i < l2.length),
+      Pos.lt pos1 l1[i] = Pos.lt pos2 l2[i] := by
+  unfold queryIso at h
+  simp only [Bool.and_eq_true, beq_iff_eq, List.all_eq_true] at h
+  obtain ⟨hl, hall⟩ := h
+  refine ⟨hl, ?_⟩
+  intro i hi hi'
+  have hz : i < (List.zip l1 l2).length := by rw [List.length_zip]; omega
+  have := hall _ (List.getElem_mem hz)
+  simpa [List.getElem_zip] using this
+
+theorem queryIso_of_spec {pos1 pos2 : Pos} {l1 l2 : List Pos} (hl : l1.length = l2.length)
+    (h : ∀ (i : Nat) (hi : i < l1.length) (hi' : i < l2.length), Pos.lt pos1 l1[i] = Pos.lt pos2 l2[i]) :
+    queryIso pos1 pos2 l1 l2 = true := by
+  unfold queryIso
+  simp only [Bool.and_eq_true, beq_iff_eq, List.all_eq_true]
+  refine ⟨hl, ?_⟩
+  intro p hp
+  obtain ⟨i, hi, rfl⟩ := List.mem_iff_getElem.mp hp
+  rw [List.getElem_zip]
+  rw [List.length_zip] at hi
+  exact h i (by omega) (by omega)
+
+/-- `orderIsoAt` is stronger -/
+theorem queryIsoAt_of_orderIsoAt {g1 g2 : Graph} {f : Nat} {pos1 pos2 : Pos}
+    (ho : orderIsoAt g1 g2 f pos1 pos2 = true) : queryIsoAt g1 g2 f pos1 pos2 = true := by
+  unfold orderIsoAt at ho
+  unfold queryIsoAt
+  obtain ⟨hl, hc⟩ := sameOrder_spec ho
+  simp only [List.length_cons, Nat.add_right_cancel_iff] at hl
+  refine queryIso_of_spec hl ?_
+  intro i hi hi'
+  have := hc 0 (i + 1) (by simp) (by simp; omega) (by simp) (by simp; omega)
+  simpa using this
+
+theorem bisect_of_queryIso {g1 g2 : Graph} {f : Nat} {pos1 pos2 : Pos}
+    (ho : queryIsoAt g1 g2 f pos1 pos2 = true) (fr1 fr2 : FlowRec)
+    (h1 : g1.flow? f = some fr1) (h2 : g2.flow? f = some fr2) :
+    bisectRight fr2.names pos2 = bisectRight fr1.names pos1 := by
+  unfold queryIsoAt Graph.locsOf at ho
+  simp only [h1, h2, Option.map_some, Option.getD_some] at ho
+  obtain ⟨hl, hc⟩ := queryIso_spec ho
+  simp only [List.length_map] at hl
+  symm
+  refine bisectRight_congr fr1.names fr2.names pos1 pos2 hl.symm ?_
+  intro i hi
+  have hi2 : i < fr2.names.length := by omega
+  have := hc i (by simpa using hi) (by simpa using hi2)
+  simpa [hi, hi2] using this
+
+theorem historiesQueryIso_of_historiesIso (g1 g2 : Graph) : ∀ (qs1 qs2 : List Query),
+    historiesIso g1 g2 qs1 qs2 = true → historiesQueryIso g1 g2 qs1 qs2 = true := by
+  intro qs1
+  induction qs1 with
+  | nil =>
+    intro qs2 h
+    cases qs2 with
+    | nil => rfl
+    | cons _ _ => simp [historiesIso] at h
+  | cons q1 r1 ih =>
+    intro qs2 h
+    cases qs2 with
+    | nil => simp [historiesIso] at h
+    | cons q2 r2 =>
+      rw [historiesIso] at h
+      rw [historiesQueryIso]
+      simp only [Bool.and_eq_true] at h ⊢
+      exact ⟨⟨h.1.1, queryIsoAt_of_orderIsoAt h.1.2⟩, ih r2 h.2⟩
+
 theorem runQueries_layouts (g1 g2 : Graph) (n : Nat) (hs : sameShape g1 g2 = true) :
-    ∀ (qs1 qs2 : List Query) (m : Memo), historiesIso g1 g2 qs1 qs2 = true →
+    ∀ (qs1 qs2 : List Query) (m : Memo), historiesQueryIso g1 g2 qs1 qs2 = true →
       runQueries g2 n m qs2 = runQueries g1 n m qs1 := by
   intro qs1
   induction qs1 with
@@ -229,18 +300,18 @@ theorem runQueries_layouts (g1 g2 : Graph) (n : Nat) (hs : sameShape g1 g2 = tru
     intro qs2 m h
     cases qs2 with
     | nil => rfl
-    | cons _ _ => simp [historiesIso] at h
+    | cons _ _ => simp [historiesQueryIso] at h
   | cons q1 r1 ih =>
     intro qs2 m h
     cases qs2 with
-    | nil => simp [historiesIso] at h
+    | nil => simp [historiesQueryIso] at h
     | cons q2 r2 =>
-      rw [historiesIso] at h
+      rw [historiesQueryIso] at h
       simp only [Bool.and_eq_true, beq_iff_eq] at h
       obtain ⟨⟨⟨hf, hk⟩, ho⟩, hr⟩ := h
       rw [runQueries, runQueries, ← hf, ← hk]
       have e := mNamesAt_core (sameShape_eq hs) n m q1.flow q1.pos q2.pos
-        (bisect_of_orderIso ho)
+        (bisect_of_queryIso ho)
       simp only [e]
       cases mNamesAt g1 n m q1.flow q1.pos with
       | none => simp only [ih r2 m hr]
